@@ -20,7 +20,7 @@ import sympy as sp
 
 from ..core import Check, AnalysisError
 from .. import repoindex as ri
-from ..cfg import CFG
+from ..cfg import CFG, resolve_guard
 from ..kpe import Interp, SymObj, ClassRef, FuncRef, UFunc, to_obj_array, S, OutsideFragment, KpeRaise
 from ..regions import RegionDecider, select_minmax
 from ..alg import Radicals, is_zero, residual, short
@@ -209,7 +209,7 @@ def _a_cfg(chk):
         ok = False
         why = ""
         for t, pol in guards:
-            e = cfg.data(t)["ast"]
+            e, pol = resolve_guard(fn, cfg.data(t)["ast"], pol)
             if isinstance(e, ast.Compare) and len(e.ops) == 1 and isinstance(e.ops[0], (ast.Lt, ast.LtE)) and pol is True \
                     and isinstance(e.comparators[0], ast.Name) and e.comparators[0].id in tol_names and isinstance(e.left, ast.Name):
                 nrm = e.left.id
